@@ -32,6 +32,7 @@
 #include <stdio.h>
 #include <stdlib.h>
 #include <string.h>
+#include <sys/stat.h>
 
 #include <unistd.h>
 #include <limits.h>
@@ -266,23 +267,65 @@ char * etcLdSoPreload_readFile ()
 void etcLdSoPreload_writeFile (char * newContent)
 {
     const char * filePath;
+    char         tmpFilePath[PATH_MAX];
+    struct stat  statBuf;
 
     filePath = etcLdSoPreload_getFilePath();
 
-    FILE * fileHandle = fopen(filePath, "w+");
+    /*
+     * Never modify ld.so.preload in place: write the new content to a temporary
+     * file next to it and rename() it over the original only once it is complete
+     * and on disk. If we get killed or the write fails (i.e. disk full), the
+     * original file stays intact - a truncated ld.so.preload can break every
+     * dynamically linked program on the system.
+     */
+    if (snprintf(tmpFilePath, PATH_MAX, "%s.snoopy-tmp", filePath) >= PATH_MAX) {
+        printDiagValue("ld.so.preload path", filePath);
+        fatalError("Path to ld.so.preload file is too long.");
+    }
+
+    FILE * fileHandle = fopen(tmpFilePath, "w");
     if (fileHandle == NULL) {
         printDiagValue("ld.so.preload path", filePath);
         printDiagValue("Error message", strerror(errno));
         fatalError("Unable to open file for writing (missing sudo, maybe?).");
     }
 
-    if (fprintf(fileHandle, "%s", newContent) < 0) {
+    if (
+        (fputs(newContent, fileHandle) < 0)
+        ||
+        (fflush(fileHandle) != 0)
+        ||
+        (fsync(fileno(fileHandle)) != 0)
+    ) {
+        int savedErrno = errno;
+        fclose(fileHandle);
+        unlink(tmpFilePath);
         printDiagValue("ld.so.preload path", filePath);
-        printDiagValue("Error message", strerror(errno));
+        printDiagValue("Error message", strerror(savedErrno));
         fatalError("Unable to write to file.");
     }
 
-    fclose(fileHandle);
+    // Keep the permissions of the file we are replacing
+    if (stat(filePath, &statBuf) == 0) {
+        fchmod(fileno(fileHandle), statBuf.st_mode & 07777);
+    }
+
+    if (fclose(fileHandle) != 0) {
+        int savedErrno = errno;
+        unlink(tmpFilePath);
+        printDiagValue("ld.so.preload path", filePath);
+        printDiagValue("Error message", strerror(savedErrno));
+        fatalError("Unable to write to file.");
+    }
+
+    if (rename(tmpFilePath, filePath) != 0) {
+        int savedErrno = errno;
+        unlink(tmpFilePath);
+        printDiagValue("ld.so.preload path", filePath);
+        printDiagValue("Error message", strerror(savedErrno));
+        fatalError("Unable to replace the ld.so.preload file.");
+    }
 }
 
 
